@@ -2798,3 +2798,17 @@ Proof.
   - specialize (IH s' (cancellation_is_permanent P cfg s a s' ls c E Hc)). destruct (run P cfg s' r). exact IH.
   - apply IH. exact Hc.
 Qed.
+
+(* ================================================================== *)
+(* C09 / C13: over every schedule the store's log only ever grows at its end (no record is removed, rewritten or
+   inserted in the middle, whatever fails) and the record count equals the number of successful appends *)
+Theorem log_only_grows P cfg : forall sched s, exists ext, store_log (fst (run P cfg s sched)) = store_log s ++ ext.
+Proof.
+  induction sched as [|a r IH]; intros s; cbn [run]; [exists []; rewrite app_nil_r; reflexivity|].
+  destruct (mstep P cfg s a) as [[s' ls]|] eqn:E; [|apply IH].
+  destruct (IH s') as [ext Hext]. destruct (run P cfg s' r) as [s2 l2]. cbn [fst] in *.
+  unfold mstep in E. destruct (assoc_get (code s) a) as [[|i rest]|]; try discriminate.
+  destruct (log_append_only P cfg s a i rest s' ls E) as [Hs | [p [_ Hs]]]; rewrite Hext, Hs.
+  - exists ext. reflexivity.
+  - eexists. rewrite <- app_assoc. reflexivity.
+Qed.
